@@ -5,6 +5,10 @@ spec/Commands.tla (design spec written from the code: struct.pack model, version
 saturation, quaternion compression), spec/CommandsTrace.tla (monitor + conformance for traces
 recorded from the real Crazyflie object).
 
+The link behind Crazyflie.send_packet is part of the environment: one kind serialises inside send_packet,
+the other keeps the CRTPPacket object and serialises it later (RadioDriver's out_queue of one); what a
+command emitted is what the link put on the wire for the object.
+
 Python drives the real API, records what reaches the link, and converts representations
 (float -> float32 bit pattern of the *argument*, exact rational -> floor/has-fraction, int ->
 bytes).  Every decision about the recorded bytes is taken by TLC."""
